@@ -1,2 +1,499 @@
+"""C07 wavenumber solver / group velocity / spectrum members.
+
+Correspondence: the extracted Coq model (coq/Model/Dispersion.v) and wavetheory/lineardispersion.py
+(+ the WaveSpectrum members) run on the same calls, compared at 1e-9 relative.
+Oracles on the implementation alone: positivity, residual of the dispersion relation at the solver
+tolerance, exact deep-water value, shallow/deep limits, monotone scans in w and d, finite-difference
+group velocity (2e-3), ratio in [0.5, 1], spectrum members = the functions at the spectrum's
+frequencies and per-point depths (NaN depth = deep)."""
+import math
+
+import common as C
+
+G0 = 9.81
+TOL0 = 1e-3
+RULE = ("one evaluation = one (w,d) point of a solver call, one (k,d) point of a kinematics call or one "
+        "(point,frequency) element of a spectrum member; non-trivial = finite depth with 1e-3 < kd < 30 "
+        "(Newton update does real work) ; distinct by (call signature, w, d) hash")
+ASSUMPTIONS = ["floating point rounding is not modelled: model and implementation are compared at 1e-9 relative, "
+               "calls whose convergence test is decided within 1e-9 of the tolerance are skipped and counted",
+               "convergence within 10 Newton steps is validated by execution (one-parameter family scan), not proved",
+               "numba compiles lineardispersion.py faithfully"]
+
+FINDING_KEY = "lineardispersion.inverse_intrinsic_dispersion_relation:tolerance-jump-nonmonotone"
+
+
+def omega_py(g, k, d):
+    if math.isinf(d):
+        return math.sqrt(g * k)
+    return math.sqrt(g * k * math.tanh(k * d))
+
+
+def gen_point(rng, g=G0):
+    """(w, d, tag) inside the quantifier of the property: w in [3e-3,50], d in [1e-2,1e4] or inf"""
+    r = rng.random()
+    if r < 0.12:
+        w = C.dyadic(rng, 3e-3, 50, 20) if rng.random() < 0.5 else math.exp(rng.uniform(math.log(3e-3), math.log(50)))
+        return C.dyadic(rng, w, w, 20), float("inf"), "deep-inf"
+    if r < 0.55:
+        # log-uniform in both
+        w = math.exp(rng.uniform(math.log(3e-3), math.log(50)))
+        d = math.exp(rng.uniform(math.log(1e-2), math.log(1e4)))
+        return C.dyadic(rng, w, w, 20), C.dyadic(rng, d, d, 20), "loguniform"
+    if r < 0.85:
+        # intermediate depth: dimensionless frequency x = w sqrt(d/g) in [0.2, 4]
+        d = math.exp(rng.uniform(math.log(1e-2), math.log(1e4)))
+        x = math.exp(rng.uniform(math.log(0.2), math.log(4.0)))
+        w = x * math.sqrt(g / d)
+        if not (3e-3 <= w <= 50):
+            w = min(max(w, 3e-3), 50)
+        return C.dyadic(rng, w, w, 20), C.dyadic(rng, d, d, 20), "intermediate"
+    if r < 0.93:
+        # near the first-guess switch w = sqrt(g/d)
+        d = C.dyadic(rng, 0.05, 2000, 12)
+        w = math.sqrt(g / d) * (1 + rng.choice([-1, 1]) * rng.choice([0, 2 ** -40, 2 ** -20, 1e-3, 1e-2]))
+        w = min(max(w, 3e-3), 50)
+        return w, d, "guess-switch"
+    # near kd = 5 for the first guess (deep guess k = w^2/g): w^2 d / g = 5
+    d = C.dyadic(rng, 0.05, 2000, 12)
+    w = math.sqrt(5 * g / d) * (1 + rng.choice([-1, 1]) * rng.choice([0, 2 ** -40, 1e-4, 1e-2]))
+    w = min(max(w, 3e-3), 50)
+    return w, d, "kd5-switch"
+
+
+def dtok(d):
+    return C.fx(d)
+
+
+def kinv_line(g, tol, fuel, ws, ds):
+    return "kinv %s %s %d %d %s" % (C.fx(g), C.fx(tol), fuel, len(ws),
+                                    " ".join("%s %s" % (C.fx(a), dtok(b)) for a, b in zip(ws, ds)))
+
+
+def trace_line(g, fuel, ws, ds):
+    return "trace %s %d %d %s" % (C.fx(g), fuel, len(ws),
+                                  " ".join("%s %s" % (C.fx(a), dtok(b)) for a, b in zip(ws, ds)))
+
+
 def run(ctx):
-    pass
+    rng = ctx.rng
+    cases = []      # implementation payload
+    mlines = []     # model requests
+    meta = []       # (kind, info)
+
+    # ------------------------------------------------------------------ solver calls
+    ncall = ctx.n(260, 6000)
+    for i in range(ncall):
+        mode = rng.choice(["ss", "as", "aa", "aa", "aa", "22", "alias"])
+        n = rng.choice([1, 1, 2, 3, 5, 8, 13, 24, 40])
+        custom = rng.random() < 0.25
+        g, tol, fuel = G0, TOL0, 10
+        if custom:
+            g = rng.choice([G0, 9.81, 1.0, 3.71, 24.79])
+            tol = rng.choice([1e-3, 1e-2, 1e-5, 1e-8])
+            fuel = rng.choice([1, 2, 3, 10, 20])
+        pts = [gen_point(rng, g) for _ in range(n)]
+        if mode == "as":
+            d0 = pts[0][1]
+            pts = [(w, d0, t) for (w, _, t) in pts]
+        shape = None
+        if mode == "22":
+            a = rng.choice([1, 2, 3, 4])
+            b = rng.choice([1, 2, 3, 5])
+            pts = [gen_point(rng, g) for _ in range(a * b)]
+            shape = [a, b]
+        ws = [p[0] for p in pts]
+        ds = [p[1] for p in pts]
+        c = {"op": "kinv", "mode": mode, "w": [C.fx(v) for v in ws], "d": [C.fx(v) for v in ds]}
+        if shape:
+            c["shape"] = shape
+        if custom:
+            c.update({"grav": C.fx(g), "maxit": fuel, "tol": C.fx(tol)})
+        cases.append(c)
+        if mode == "ss":
+            # one independent solver run per element
+            for w, d in zip(ws, ds):
+                mlines.append(kinv_line(g, tol, fuel, [w], [d]))
+        else:
+            mlines.append(kinv_line(g, tol, fuel, ws, ds))
+        meta.append(("kinv", dict(mode=mode, g=g, tol=tol, fuel=fuel, custom=custom, pts=pts, shape=shape)))
+
+    # ------------------------------------------------------------------ kinematics calls (omega, c, n, cg)
+    nkin = ctx.n(120, 2500)
+    for i in range(nkin):
+        mode = rng.choice(["ss", "as", "aa", "aa"])
+        n = rng.choice([1, 2, 4, 9, 20])
+        g = G0 if rng.random() < 0.7 else rng.choice([1.0, 3.71, 24.79])
+        pts = []
+        for _ in range(n):
+            r = rng.random()
+            if r < 0.12:
+                k = math.exp(rng.uniform(math.log(1e-6), math.log(300)))
+                pts.append((C.dyadic(rng, k, k, 20), float("inf")))
+            elif r < 0.3:
+                # kd exactly 5 or next to it (the > 5 switch)
+                d = rng.choice([0.5, 1.0, 2.0, 4.0, 8.0, 16.0, 0.25, 1024.0])
+                k = 5.0 / d
+                k = k * (1 + rng.choice([0, 0, 2 ** -52, -2 ** -52, 2 ** -30, -2 ** -30, 1e-6, -1e-6]))
+                pts.append((k, d))
+            else:
+                d = math.exp(rng.uniform(math.log(1e-2), math.log(1e4)))
+                kd = math.exp(rng.uniform(math.log(1e-5), math.log(300)))
+                d = C.dyadic(rng, d, d, 20)
+                k = C.dyadic(rng, kd / d, kd / d, 20)
+                pts.append((k, d))
+        if mode == "as":
+            pts = [(k, pts[0][1]) for (k, _) in pts]
+        c = {"op": "kin", "mode": mode, "k": [C.fx(p[0]) for p in pts],
+             "d": [C.fx(p[1]) for p in pts] if mode != "as" else [C.fx(pts[0][1])]}
+        if g != G0:
+            c["grav"] = C.fx(g)
+        cases.append(c)
+        mlines.append("kin %s %d %s" % (C.fx(g), len(pts), " ".join("%s %s" % (C.fx(k), dtok(d)) for k, d in pts)))
+        meta.append(("kin", dict(mode=mode, g=g, pts=pts)))
+
+    # ------------------------------------------------------------------ spectra
+    nspec = ctx.n(60, 1200)
+    layouts = [((), ()), (("time",), None), (("time",), None), (("time", "latitude"), None),
+               (("latitude", "longitude"), None), (("longitude",), None), (("time", "latitude", "longitude"), None)]
+    for i in range(nspec):
+        kind = rng.choice(["1d", "2d"])
+        dims, _ = rng.choice(layouts)
+        if ctx.quick() and len(dims) > 2:
+            dims = ("time", "latitude")     # 4-d arrays cost > 1 min of numba compilation: thorough tier only
+        lead = [rng.choice([1, 2, 3, 4]) for _ in dims]
+        if len(dims) == 1 and rng.random() < 0.3:
+            lead = [rng.choice([6, 12])]
+        npnt = 1
+        for v in lead:
+            npnt *= v
+        nf = rng.choice([1, 2, 5, 12, 30])
+        fs = sorted(set(C.dyadic(rng, f, f, 16) for f in
+                        (math.exp(rng.uniform(math.log(5e-4), math.log(7.9))) for _ in range(nf))))
+        depths = []
+        for _ in range(npnt):
+            r = rng.random()
+            if r < 0.2:
+                depths.append(float("nan"))
+            elif r < 0.35:
+                depths.append(float("inf"))
+            else:
+                d = math.exp(rng.uniform(math.log(1e-2), math.log(1e4)))
+                depths.append(C.dyadic(rng, d, d, 16))
+        c = {"op": "spec", "kind": kind, "f": [C.fx(v) for v in fs], "lead_shape": lead, "lead_dims": list(dims),
+             "depth": [C.fx(v) for v in depths], "seed": i, "ndir": rng.choice([4, 8])}
+        cases.append(c)
+        mlines.append("spec %s %s %s" % (C.fx(G0), C.flist(fs), "%d %s" % (len(depths), " ".join(C.fx(v) for v in depths))))
+        meta.append(("spec", dict(kind=kind, dims=dims, lead=lead, fs=fs, depths=depths)))
+
+    # ------------------------------------------------------------------ monotone scans (implementation only)
+    scans = []
+    nscan = ctx.n(40, 400)
+    for i in range(nscan):
+        which = rng.choice(["w", "w", "d"])
+        m = rng.choice([12, 25, 60])
+        mode = rng.choice(["aa", "ss", "as"]) if which == "w" else rng.choice(["aa", "ss"])
+        if which == "w":
+            d = float("inf") if rng.random() < 0.1 else C.dyadic(rng, *(lambda v: (v, v))(math.exp(rng.uniform(math.log(1e-2), math.log(1e4)))), 16)
+            lo = math.exp(rng.uniform(math.log(3e-3), math.log(5)))
+            step = 1 + rng.choice([5e-3, 1e-2, 0.05, 0.2])
+            ws = [lo * step ** j for j in range(m)]
+            ws = [w for w in ws if w <= 50]
+            ds = [d] * len(ws)
+        else:
+            w = math.exp(rng.uniform(math.log(3e-3), math.log(50)))
+            lo = math.exp(rng.uniform(math.log(1e-2), math.log(50)))
+            step = 1 + rng.choice([1e-2, 0.05, 0.3])
+            ds = [lo * step ** j for j in range(m)]
+            ds = [d for d in ds if d <= 1e4]
+            if rng.random() < 0.3:
+                ds.append(float("inf"))
+            ws = [w] * len(ds)
+        if mode == "as" and which != "w":
+            mode = "aa"
+        c = {"op": "kinv", "mode": mode, "w": [C.fx(v) for v in ws], "d": [C.fx(v) for v in ds]}
+        scans.append((which, mode, ws, ds))
+        cases.append(c)
+        meta.append(("scan", None))
+
+    # the one-parameter family x = w sqrt(d/g): convergence within the iteration budget and
+    # monotonicity of the returned value (validated, not proved)
+    fam = []
+    nfam = ctx.n(4000, 100000)
+    for d in (1.0, 0.015625, 4096.0, 37.5):
+        lo = max(10 ** -2.5, 3e-3 / math.sqrt(G0 / d))
+        hi = min(10 ** 2.5, 50 / math.sqrt(G0 / d))
+        m = max(50, int(nfam / 4 * (math.log10(hi / lo) / 5)))
+        xs = [lo * (hi / lo) ** (j / (m - 1)) for j in range(m)]
+        ws = [min(max(x * math.sqrt(G0 / d), 3e-3), 50) for x in xs]
+        for mode in ("ss", "aa"):
+            # "aa" in chunks of 500 so that different chunks see different iteration counts
+            if mode == "ss":
+                cases.append({"op": "kinv", "mode": "ss", "w": [C.fx(v) for v in ws], "d": [C.fx(d)] * len(ws)})
+                fam.append((mode, d, ws)); meta.append(("fam", None))
+            else:
+                for s in range(0, len(ws), 500):
+                    sub = ws[s:s + 500]
+                    cases.append({"op": "kinv", "mode": "aa", "w": [C.fx(v) for v in sub], "d": [C.fx(d)] * len(sub)})
+                    fam.append((mode, d, sub)); meta.append(("fam", None))
+
+    # deterministic corpus case of the recorded finding (scalar calls straddling the switch from two
+    # Newton steps to one: the returned wavenumber DEcreases by 0.16 % while w increases)
+    fw = [1.359408559108896 * math.sqrt(G0), 1.3594868152083532 * math.sqrt(G0)]
+    cases.append({"op": "kinv", "mode": "ss", "w": [C.fx(v) for v in fw], "d": [C.fx(1.0)] * 2})
+    meta.append(("finding", None))
+
+    impl = ctx.impl("C07.py", {"cases": cases})["results"]
+    mod = ctx.model(mlines)
+
+    # ================================================================== evaluate
+    mi = 0          # index into model replies
+    si = 0
+    fi = 0
+    borderline_requests = []
+    for ci, (kind, info) in enumerate(meta):
+        im = impl[ci]
+        if kind == "kinv":
+            pts = info["pts"]
+            g, tol, fuel = info["g"], info["tol"], info["fuel"]
+            ws = [p[0] for p in pts]; ds = [p[1] for p in pts]
+            rep = {"op": "inverse_intrinsic_dispersion_relation", "mode": info["mode"], "w": ws, "d": ds,
+                   "grav": g, "tolerance": tol, "maximum_number_of_iterations": fuel, "shape": info["shape"]}
+            if info["mode"] == "ss":
+                mrows = mod[mi:mi + len(pts)]; mi += len(pts)
+                mk = [C.unfx(r[2]) for r in mrows]
+                mflag = [r[0] == "T" for r in mrows]
+            else:
+                r = mod[mi]; mi += 1
+                mk = [C.unfx(v) for v in r[2:]]
+                mflag = [r[0] == "T"] * len(pts)
+            if isinstance(im, dict) and "error" in im:
+                ctx.oracle_fail("inverse_intrinsic_dispersion_relation raised %s: %s" % (im["error"], im["msg"]), rep)
+                continue
+            ik = [C.unfx(v) for v in im["k"]]
+            ctx.tally("kinv-call:" + info["mode"] + ("-custom" if info["custom"] else ""))
+            if len(ik) != len(pts):
+                ctx.oracle_fail("result has %d elements for %d inputs" % (len(ik), len(pts)), rep)
+                continue
+            bad = [j for j in range(len(pts)) if not C.close(ik[j], mk[j], 1e-9)]
+            if bad:
+                # decided within rounding error of the tolerance?  ask the model for the trace
+                borderline_requests.append((rep, bad, ik, mk, info))
+            for j, (w, d, tag) in enumerate(pts):
+                kd = ik[j] * d if not math.isinf(d) else float("inf")
+                ctx.count(["kinv", info["mode"], g, tol, fuel, w, d], (not math.isinf(d)) and 1e-3 < kd < 30)
+                ctx.tally("pt:" + tag)
+                rp = dict(rep); rp["index"] = j; rp["w_j"] = w; rp["d_j"] = d; rp["k_impl"] = ik[j]
+                if not (ik[j] > 0 and math.isfinite(ik[j])):
+                    ctx.oracle_fail("wavenumber %r for w=%r d=%r is not positive and finite" % (ik[j], w, d), rp)
+                    continue
+                if fuel >= 10:
+                    res = abs(omega_py(g, ik[j], d) - w)
+                    if res > tol * w * (1 + 1e-9) + 1e-15 * w:
+                        ctx.oracle_fail("|omega(k)-w| = %.3e w exceeds the tolerance %.1e (w=%r d=%r k=%r)"
+                                        % (res / w, tol, w, d, ik[j]), rp)
+                    if math.isinf(d) and not C.close(ik[j], w * w / g, 1e-12):
+                        ctx.oracle_fail("deep water: k=%r but w^2/g=%r" % (ik[j], w * w / g), rp)
+                    if tol <= 1e-3 and not math.isinf(d):
+                        x = w * math.sqrt(d / g)
+                        if x * x > 20 and abs(ik[j] * g / (w * w) - 1) > 2.1e-3:
+                            ctx.oracle_fail("deep limit: k g/w^2 = %r at w^2 d/g = %r" % (ik[j] * g / (w * w), x * x), rp)
+                        if x < 0.05 and abs(ik[j] * math.sqrt(g * d) / w - 1) > 1.1e-3 + x * x / 5:
+                            ctx.oracle_fail("shallow limit: k sqrt(g d)/w = %r at w sqrt(d/g) = %r"
+                                            % (ik[j] * math.sqrt(g * d) / w, x), rp)
+            if ci < 2:
+                ctx.sample({"kinv": {"mode": info["mode"], "w": ws[:4], "d": ds[:4], "impl": ik[:4], "model": mk[:4]}})
+        elif kind == "kin":
+            pts = info["pts"]; g = info["g"]
+            r = mod[mi]; mi += 1
+            vals = [C.unfx(v) for v in r[1:]]
+            m_om = vals[0::4]; m_n = vals[1::4]; m_cg = vals[2::4]; m_nex = vals[3::4]
+            rep = {"op": "kinematics", "mode": info["mode"], "k": [p[0] for p in pts], "d": [p[1] for p in pts], "grav": g}
+            if isinstance(im, dict) and "error" in im:
+                ctx.oracle_fail("dispersion kinematics raised %s: %s" % (im["error"], im["msg"]), rep)
+                continue
+            ctx.tally("kin-call:" + info["mode"])
+            i_om = [C.unfx(v) for v in im["omega"]]; i_ph = [C.unfx(v) for v in im["phase"]]
+            i_n = [C.unfx(v) for v in im["n"]]; i_cg = [C.unfx(v) for v in im["cg"]]
+            for j, (k, d) in enumerate(pts):
+                kd = k * d
+                ctx.count(["kin", info["mode"], g, k, d], (not math.isinf(d)) and 1e-3 < kd < 30)
+                ctx.tally("kd>5" if kd > 5 else ("kd==5" if kd == 5 else "kd<5"))
+                rp = dict(rep); rp["index"] = j; rp["k_j"] = k; rp["d_j"] = d
+                for nm, a, b in (("intrinsic_dispersion_relation", i_om[j], m_om[j]),
+                                 ("phase_velocity", i_ph[j], m_om[j] / k),
+                                 ("ratio_group_velocity_to_phase_velocity", i_n[j], m_n[j]),
+                                 ("intrinsic_group_velocity", i_cg[j], m_cg[j])):
+                    if not C.close(a, b, 1e-9):
+                        rp2 = dict(rp); rp2["impl"] = a; rp2["model"] = b
+                        ctx.disagree("%s(k=%r, d=%r) = %r, defining formula gives %r" % (nm, k, d, a, b), rp2,
+                                     is_property_failure=True)
+                if "jac_w2k" in im:
+                    a = C.unfx(im["jac_w2k"][j]); b = C.unfx(im["jac_k2w"][j])
+                    if not C.close(a, i_cg[j], 1e-12) or not C.close(a * b, 1.0, 1e-12):
+                        ctx.oracle_fail("jacobians are not cg and 1/cg at k=%r d=%r" % (k, d), rp)
+                # oracles on the implementation alone
+                ratio = i_cg[j] / i_ph[j] if i_ph[j] else float("nan")
+                if not (0.5 - 1e-12 <= ratio <= 1 + 1e-12):
+                    ctx.oracle_fail("group/phase velocity ratio %r outside [0.5,1] at k=%r d=%r" % (ratio, k, d), rp)
+                h = 1e-4
+                fd = (omega_py(g, k * (1 + h), d) - omega_py(g, k * (1 - h), d)) / (2 * k * h)
+                if abs(i_cg[j] - fd) > 2e-3 * abs(fd):
+                    ctx.oracle_fail("group velocity %r differs from d omega/dk = %r by more than 2e-3 (k=%r d=%r)"
+                                    % (i_cg[j], fd, k, d), rp)
+        elif kind == "spec":
+            r = mod[mi]; mi += 1
+            fs = info["fs"]; depths = info["depths"]
+            nf = len(fs)
+            rep = {"op": "spectrum-members", "kind": info["kind"], "lead_dims": list(info["dims"]),
+                   "lead_shape": info["lead"], "frequency": fs, "depth": depths}
+            if isinstance(im, dict) and "error" in im:
+                ctx.oracle_fail("spectrum wavenumber/wavelength/wave_speed/group_velocity: %s: %s" % (im["error"], im["msg"]), rep)
+                continue
+            ctx.tally("spec:%s:%s" % (info["kind"], ",".join(info["dims"]) or "scalar"))
+            vals = [C.unfx(v) for v in r[2:]]
+            mk = vals[0::4]; mwl = vals[1::4]; mws = vals[2::4]; mgv = vals[3::4]
+            ik = [C.unfx(v) for v in im["wavenumber"]]; iwl = [C.unfx(v) for v in im["wavelength"]]
+            iws = [C.unfx(v) for v in im["wave_speed"]]; igv = [C.unfx(v) for v in im["group_velocity"]]
+            idep = [C.unfx(v) for v in im["depth"]]
+            for p, d in enumerate(depths):
+                want = float("inf") if math.isnan(d) else d
+                if idep[p] != want:
+                    ctx.oracle_fail("spectrum.depth[%d] = %r for stored depth %r (missing must become inf)" % (p, idep[p], d), rep)
+            if len(ik) != len(mk):
+                ctx.oracle_fail("wavenumber has %d elements, expected %d" % (len(ik), len(mk)), rep)
+                continue
+            kbad = [j for j in range(len(mk)) if not C.close(ik[j], mk[j], 1e-9)]
+            if kbad:
+                ws_ = []; ds_ = []
+                for d in depths:
+                    for f in fs:
+                        ws_.append(f * 2 * math.pi); ds_.append(float("inf") if math.isnan(d) else d)
+                borderline_requests.append((rep, kbad, ik, mk, dict(g=G0, tol=TOL0, fuel=10, pts=list(zip(ws_, ds_, [""] * len(ws_))), spec=True)))
+            for j in range(len(mk)):
+                p = j // nf; f = fs[j % nf]
+                d = float("inf") if math.isnan(depths[p]) else depths[p]
+                w = f * 2 * math.pi
+                kd = ik[j] * d if not math.isinf(d) else float("inf")
+                ctx.count(["spec", info["kind"], list(info["dims"]), f, depths[p] if not math.isnan(depths[p]) else "nan", p],
+                          (not math.isinf(d)) and 1e-3 < kd < 30)
+                ctx.tally("spec-depth:" + ("nan" if math.isnan(depths[p]) else ("inf" if math.isinf(depths[p]) else "finite")))
+                rp = dict(rep); rp["point"] = p; rp["frequency_index"] = j % nf
+                if not kbad:
+                    for nm, a, b in (("wavelength", iwl[j], mwl[j]), ("wave_speed", iws[j], mws[j]), ("group_velocity", igv[j], mgv[j])):
+                        if not C.close(a, b, 1e-9):
+                            rp2 = dict(rp); rp2["impl"] = a; rp2["model"] = b
+                            ctx.disagree("spectrum.%s[point %d, f=%r] = %r, model %r" % (nm, p, f, a, b), rp2, is_property_failure=True)
+                # oracles: the members are the functions at (2 pi f, depth or inf)
+                if not (ik[j] > 0 and math.isfinite(ik[j])):
+                    ctx.oracle_fail("spectrum.wavenumber %r at f=%r depth=%r" % (ik[j], f, depths[p]), rp)
+                    continue
+                res = abs(omega_py(G0, ik[j], d) - w)
+                if res > TOL0 * w * (1 + 1e-9):
+                    ctx.oracle_fail("spectrum.wavenumber: |omega(k)-w| = %.3e w at f=%r depth=%r (missing depth = deep)"
+                                    % (res / w, f, depths[p]), rp)
+                if not C.close(iwl[j] * ik[j], 2 * math.pi, 1e-12):
+                    ctx.oracle_fail("spectrum.wavelength*wavenumber = %r, not 2 pi" % (iwl[j] * ik[j]), rp)
+                if not C.close(iws[j] * ik[j], w, 1e-12):
+                    ctx.oracle_fail("spectrum.wave_speed*wavenumber = %r, not 2 pi f = %r" % (iws[j] * ik[j], w), rp)
+                kdv = ik[j] * d
+                nn = 0.5 if (math.isinf(d) or kdv > 5) else 0.5 + kdv / math.sinh(2 * kdv)
+                cgw = nn * omega_py(G0, ik[j], d) / ik[j]
+                if not C.close(igv[j], cgw, 1e-9):
+                    ctx.oracle_fail("spectrum.group_velocity = %r, cg(k, depth) = %r at f=%r depth=%r" % (igv[j], cgw, f, depths[p]), rp)
+        elif kind == "scan":
+            which, mode, ws, ds = scans[si]; si += 1
+            rep = {"op": "monotone-scan", "varying": which, "mode": mode, "w": ws, "d": ds}
+            if isinstance(im, dict) and "error" in im:
+                ctx.oracle_fail("scan raised %s" % im, rep)
+                continue
+            ik = [C.unfx(v) for v in im["k"]]
+            ctx.tally("scan:" + which + ":" + mode)
+            for j in range(len(ik) - 1):
+                ctx.count(["scan", which, mode, ws[j], ds[j]])
+                if which == "w":
+                    if not ik[j + 1] > ik[j]:
+                        rp = dict(rep); rp["index"] = j
+                        ctx.oracle_fail("k not increasing in w: k(%r)=%r, k(%r)=%r at d=%r" % (ws[j], ik[j], ws[j + 1], ik[j + 1], ds[j]), rp)
+                        break
+                else:
+                    slack = 1e-9 if mode == "aa" else 4.1e-3     # separate scalar calls: each within the solver tolerance
+                    if not ik[j + 1] <= ik[j] * (1 + slack):
+                        rp = dict(rep); rp["index"] = j
+                        ctx.oracle_fail("k increases with depth: k(d=%r)=%r, k(d=%r)=%r at w=%r" % (ds[j], ik[j], ds[j + 1], ik[j + 1], ws[j]), rp)
+                        break
+        elif kind == "fam":
+            mode, d, ws = fam[fi]; fi += 1
+            rep = {"op": "one-parameter-family", "mode": mode, "d": d, "w_first": ws[0], "w_last": ws[-1], "n": len(ws)}
+            if isinstance(im, dict) and "error" in im:
+                ctx.oracle_fail("family scan raised %s" % im, rep)
+                continue
+            ik = [C.unfx(v) for v in im["k"]]
+            ctx.tally("family:" + mode, len(ik))
+            worst = 0.0
+            for j, (w, k) in enumerate(zip(ws, ik)):
+                ctx.count(["fam", mode, d, w], 1e-3 < k * d < 30)
+                ok = k > 0 and math.isfinite(k)
+                res = abs(omega_py(G0, k, d) - w) / w if ok else float("inf")
+                worst = max(worst, res)
+                if res > TOL0 * (1 + 1e-9):
+                    ctx.oracle_fail("family scan: |omega(k)-w|/w = %.3e at w=%r d=%r (k=%r): no convergence within the "
+                                    "iteration budget" % (res, w, d, k), {"op": "inverse_intrinsic_dispersion_relation",
+                                                                           "mode": mode, "w": [w], "d": [d], "k_impl": k})
+                    break
+            # monotone in w: consecutive points inside one array call; points >= 0.5 % apart for scalar calls
+            stride = 1
+            if mode == "ss":
+                ratio = ws[1] / ws[0]
+                stride = max(1, int(math.ceil(math.log(1.005) / math.log(ratio))))
+            for j in range(len(ik) - stride):
+                if not ik[j + stride] > ik[j]:
+                    ctx.oracle_fail("family scan (%s): k(%r)=%r >= k(%r)=%r at d=%r" % (mode, ws[j], ik[j], ws[j + stride], ik[j + stride], d),
+                                    {"op": "inverse_intrinsic_dispersion_relation", "mode": mode, "w": [ws[j], ws[j + stride]],
+                                     "d": [d, d], "k_impl": [ik[j], ik[j + stride]]})
+                    break
+            ctx.extra.setdefault("family_worst_relative_residual", {})["%s d=%g" % (mode, d)] = worst
+        elif kind == "finding":
+            if isinstance(im, dict) and "error" in im:
+                continue
+            ik = [C.unfx(v) for v in im["k"]]
+            ctx.count("finding-case")
+            if not ik[1] > ik[0]:
+                ctx.oracle_fail("strict monotonicity in w fails at the solver-tolerance level: separate scalar calls "
+                                "k(w=%r, d=1) = %r > k(w=%r, d=1) = %r (two Newton steps vs one; both satisfy the 1e-3 residual)"
+                                % (fw[0], ik[0], fw[1], ik[1]),
+                                {"op": "inverse_intrinsic_dispersion_relation", "mode": "ss", "w": fw, "d": [1.0, 1.0], "k_impl": ik},
+                                key=FINDING_KEY)
+
+    # ---- borderline analysis of the solver disagreements
+    if borderline_requests:
+        tl = []
+        for rep, bad, ik, mk, info in borderline_requests:
+            pts = info["pts"]
+            if info.get("mode") == "ss":
+                for j in bad:
+                    tl.append(trace_line(info["g"], info["fuel"], [pts[j][0]], [pts[j][1]]))
+            else:
+                tl.append(trace_line(info["g"], info["fuel"], [p[0] for p in pts], [p[1] for p in pts]))
+        tr = ctx.model(tl)
+        ti = 0
+        for rep, bad, ik, mk, info in borderline_requests:
+            nreq = len(bad) if info.get("mode") == "ss" else 1
+            rows = tr[ti:ti + nreq]; ti += nreq
+            tol = info["tol"]
+            border = all(any(abs(C.unfx(v) - tol) <= 1e-7 * tol for v in row[1:]) for row in rows)
+            j = bad[0]
+            rp = dict(rep); rp["index"] = j; rp["impl"] = ik[j]; rp["model"] = mk[j]
+            if border:
+                ctx.tally("skipped-borderline-convergence-test")
+                continue
+            ctx.disagree("wavenumber differs from the modelled solver: element %d impl %r model %r (w=%r d=%r)"
+                         % (j, ik[j], mk[j], info["pts"][j][0], info["pts"][j][1]), rp)
+            # is the input itself a counterexample?  (residual / positivity oracles above already ran)
+
+
+READY = False
+LEVEL_TEXT = ""
+LEVEL_NOTE = ""
+TECHNIQUE = "Coq proof (real analysis: monotonicity, derivative, bounds) + extracted-model correspondence + residual/monotone/finite-difference oracles"
+DESIGN_REF = "DESIGN.md section 5 C07"
